@@ -63,7 +63,7 @@ func indexOrLen(s string, c byte) int {
 func straddle(vs ...float64) []float64 {
 	var o []float64
 	for _, v := range vs {
-		o = append(o, v*(1-1e-9), v, v*(1+1e-9))
+		o = append(o, v*(1-1e-9), math.Nextafter(v, math.Inf(-1)), v, math.Nextafter(v, math.Inf(1)), v*(1+1e-9))
 	}
 	return o
 }
@@ -79,7 +79,8 @@ func uniqSorted(v []float64) []float64 {
 	return o
 }
 
-var gammaAs = []float64{0.1, 0.3, 0.5, 0.99, 1, 1.01, 2, 2.5, 5, 19.9, 20, 20.1, 50, 199, 200, 201, 500, 1e4}
+// igamSmall = 20 and igamLarge = 200 bound the asymptotic regime; a = 1 and a < 1 matter to the callers.
+var gammaAs = set([]float64{0.1, 0.2, 0.3, 0.5, 2, 2.5, 5, 10, 19.9, 20.1, 30, 50, 100, 150, 199, 201, 250, 500, 1000, 1e4}, nb(1), ulps(20, 200))
 
 // gammaXs crosses every region switch of cephes igam.go for the given a:
 // x = 1, 1.1, 0.5 (IgamC), x = a, x*1.1 = a, -0.4/log(x) = a, |x-a|/a = 0.3 (20<a<200),
@@ -91,6 +92,13 @@ func gammaXs(a float64) []float64 {
 		xs = append(xs, straddle(math.Exp(-0.4/a))...)
 	}
 	xs = append(xs, a/100, a/3, a*2, a*5.5, a*30, a+40*math.Sqrt(a)+40, 700, 1e4)
+	// a sweep of 48 log-spaced points over [a/1000, 1000 a] and 24 points across the bulk a +- 6 sqrt(a)
+	for i := 0; i < 48; i++ {
+		xs = append(xs, a*math.Pow(10, -3+6*float64(i)/47))
+	}
+	for i := 0; i < 24; i++ {
+		xs = append(xs, a+math.Sqrt(a)*(-6+12*float64(i)/23))
+	}
 	o := xs[:0]
 	for _, x := range xs {
 		if x > 0 && isFinite(x) {
@@ -150,8 +158,11 @@ func genMathext(gen *vlib.G) {
 			}
 		})
 		sfCase(gen, fmt.Sprintf("GammaIncInv a=%g", a), func(r *rep, e *sfErr) {
-			ys := []float64{1e-12, 1e-6, 1e-3, 0.01, 0.1, 0.2, 0.3, 0.5, 0.7, 0.9, 0.99, 1 - 1e-3, 1 - 1e-6, 1 - 1e-12}
-			ys = append(ys, straddle(0.25, 0.75)...)
+			ys := []float64{1e-300, 1e-100, 1e-30, 1e-15, 1e-12, 1e-9, 1e-6, 1e-3, 0.01, 0.1, 0.2, 0.3, 0.5, 0.7, 0.9, 0.99, 1 - 1e-3, 1 - 1e-6, 1 - 1e-9, 1 - 1e-12}
+			ys = append(ys, straddle(0.25, 0.75, 0.5)...)
+			for i := 1; i < 20; i++ {
+				ys = append(ys, float64(i)/20)
+			}
 			for _, y := range uniqSorted(ys) {
 				arg := fmt.Sprintf("a=%g y=%s", a, g(y))
 				for _, comp := range []bool{false, true} {
@@ -169,7 +180,11 @@ func genMathext(gen *vlib.G) {
 							back = mathext.GammaIncReg(a, x)
 						}
 					}); pv != nil {
-						r.fail(name+"-panic", arg, "%v", pv)
+						cl := ""
+						if !comp && y < 0.25 {
+							cl = "gammaincreginv-tiny-result"
+						}
+						r.cls(cl, name+"-panic", arg, "%v", pv)
 						continue
 					}
 					// conditioning: y and 1-y are both inputs of the algorithm (the inverse of the
@@ -179,7 +194,7 @@ func genMathext(gen *vlib.G) {
 					e.see(d/tol, name+" "+arg)
 					if !(d <= tol) {
 						cl := ""
-						if !comp && y < 0.25 && x < 1e-5 {
+						if !comp && y < 0.25 && !(x >= 1e-5) {
 							cl = "gammaincreginv-tiny-result"
 						}
 						r.cls(cl, name+"-inverse", arg, "x=%v maps back to %v (err %g, tol %g)", x, back, back-y, tol)
@@ -201,7 +216,8 @@ func genMathext(gen *vlib.G) {
 	}
 
 	// --- incomplete beta ----------------------------------------------------
-	betaAB := []float64{0.3, 0.5, 0.99, 1, 1.01, 2, 2.5, 5, 50, 100, 171, 172, 1000}
+	// incbi: aa <= 1 || bb <= 1 takes the bisection path; incbet: a+b < maxGam = 171.62
+	betaAB := set([]float64{0.2, 0.3, 0.5, 2, 2.5, 5, 20, 50, 85, 86, 100, 171, 172, 1000}, nb(1))
 	for _, a := range betaAB {
 		for _, b := range betaAB {
 			a, b := a, b
@@ -209,6 +225,9 @@ func genMathext(gen *vlib.G) {
 				xs := []float64{1e-300, 1e-30, 1e-10, 1e-3, 0.01, 0.1, 0.25, 0.5, 0.75, 0.9, 0.99, 0.999, 1 - 1e-10}
 				xs = append(xs, straddle(0.95, 0.05, a/(a+b), b/(a+b), (a-1)/(a+b-2), (a+1)/(a+b+2))...)
 				xs = append(xs, straddle(1/b, 1/a, 1-1/a, 1-1/b)...)
+				for i := 1; i < 32; i++ {
+					xs = append(xs, float64(i)/32)
+				}
 				var ok []float64
 				for _, x := range xs {
 					if x > 0 && x < 1 {
@@ -238,7 +257,9 @@ func genMathext(gen *vlib.G) {
 					if d > tol {
 						r.fail("RegIncBeta-symmetry", arg, "I_x(a,b)=%v I_{1-x}(b,a)=%v sum-1=%g", i1, i2, i1+i2-1)
 					}
-					if i1 < prev-1e-14 {
+					// the algorithm switches (series / continued fractions / transformed argument) meet
+					// to about 1e-12 relative only: observed steps up to 9e-13 (NOTES.md O6)
+					if i1 < prev-1e-11*prev-1e-300 {
 						r.fail("RegIncBeta-monotone", arg, "I=%v after %v", i1, prev)
 					}
 					prev = i1
@@ -246,6 +267,9 @@ func genMathext(gen *vlib.G) {
 					logt := a*math.Log(x) + b*math.Log1p(-x) - math.Log(a) - lb
 					term := math.Exp(logt)
 					condT := 0x1p-52 * (math.Abs(a*math.Log(x)) + math.Abs(b*math.Log1p(-x)) + math.Abs(lb) + 1) * term
+					if x < 1e-290 || i1 < 1e-290 {
+						continue // denormal arguments and results carry few digits
+					}
 					i3 := mathext.RegIncBeta(a+1, b, x)
 					d = math.Abs(i3 - (i1 - term))
 					tol = boxF * (tolSFRecur*math.Max(i1, term) + 8*condT + 1e-300)
@@ -300,6 +324,10 @@ func genMathext(gen *vlib.G) {
 		for _, x := range []float64{1e-8, 1e-3, 0.1, 0.25, 0.5, 0.75, 1, 1.4616321449683623, 1.5, 2, 3, 4.5, 5, 5.999999, 6, 6.000001, 6.5, 7, 7.000001, 8, 10, 50, 1e3, 1e6, 1e12} {
 			xs = append(xs, x, -x-0.25, -x-0.5)
 		}
+		xs = append(xs, ulps(1, 2, 6, 7, 8)...) // the recurrence loop runs while x < 7
+		for i := -200; i <= 240; i++ { // sweep (-10, 12) in steps of 0.05 (poles are skipped below)
+			xs = append(xs, float64(i)*0.05+0.0125)
+		}
 		for _, x := range xs {
 			if x <= 0 && x == math.Floor(x) || x+1 <= 0 && x+1 == math.Floor(x+1) {
 				continue // poles
@@ -313,7 +341,7 @@ func genMathext(gen *vlib.G) {
 			if !(d <= tolDigamma*m) {
 				r.fail("Digamma-recurrence", arg, "psi(x+1)=%v psi(x)+1/x=%v", p1, p0+1/x)
 			}
-			if x > 0 && x < 1 {
+			if x > 1e-9 && x < 1-1e-9 { // pi cot(pi x) is ill-conditioned next to the poles
 				// reflection psi(1-x) - psi(x) = pi cot(pi x)
 				want := math.Pi / math.Tan(math.Pi*x)
 				got := mathext.Digamma(1-x) - p0
@@ -360,10 +388,12 @@ func genMathext(gen *vlib.G) {
 	})
 
 	// --- Hurwitz zeta -------------------------------------------------------
-	for _, x := range []float64{1.0000001, 1.01, 1.5, 2, 2.5, 3, 4, 6, 10, 30, 100} {
+	for _, x := range []float64{1.0000001, 1.001, 1.01, 1.1, 1.25, 1.5, 2, 2.5, 3, 4, 5, 6, 8, 10, 15, 20, 30, 50, 100} {
 		x := x
 		sfCase(gen, fmt.Sprintf("Zeta x=%g", x), func(r *rep, e *sfErr) {
-			qs := []float64{1e-3, 0.25, 0.5, 1, 1.5, 2, 7.5, 8, 8.5, 9, 9.5, 10, 50, 1e3, 1e6, 0.99e8, 1e8 * (1 - 1e-9), 1e8, 1e8 * (1 + 1e-9), 1.01e8, 1e12}
+			// the summation loop runs while i < 9 || a <= 9; the asymptotic form takes over for q > 1e8
+			qs := []float64{1e-3, 0.25, 0.5, 1, 1.5, 2, 3, 5, 7.5, 8, 8.5, 9.5, 10, 20, 50, 1e3, 1e6, 0.99e8, 1.01e8, 1e12}
+			qs = append(qs, straddle(9, 1e8)...)
 			for _, q := range qs {
 				arg := fmt.Sprintf("x=%g q=%s", x, g(q))
 				z0, z1 := mathext.Zeta(x, q), mathext.Zeta(x, q+1)
@@ -435,7 +465,13 @@ func genMathext(gen *vlib.G) {
 	// --- normal quantile ----------------------------------------------------
 	sfCase(gen, "NormalQuantile inverse of erfc", func(r *rep, e *sfErr) {
 		ps := []float64{1e-300, 1e-100, 1e-30, 1e-15, 1e-9, 1e-6, 1e-3, 0.01, 0.05, 0.1, 0.25, 0.4, 0.5}
-		ps = append(ps, straddle(0.075, math.Exp(-25), 0.425+0.5-0.85)...)
+		for i := 0; i < 600; i++ { // 2 points per decade down to 1e-300
+			ps = append(ps, 0.5*math.Pow(10, -float64(i)/2))
+		}
+		for i := 1; i < 200; i++ {
+			ps = append(ps, float64(i)/400)
+		}
+		ps = append(ps, straddle(0.075, math.Exp(-25))...)
 		var all []float64
 		for _, p := range ps {
 			all = append(all, p)
@@ -447,7 +483,7 @@ func genMathext(gen *vlib.G) {
 		for _, p := range uniqSorted(all) {
 			arg := "p=" + g(p)
 			z := mathext.NormalQuantile(p)
-			if !(z > prev) {
+			if !(z >= prev-1e-15*math.Abs(z)) { // p one ulp apart may share a value or swap the last bit
 				r.fail("NormalQuantile-increasing", arg, "z=%v after %v", z, prev)
 			}
 			prev = z
@@ -491,9 +527,12 @@ func genMathext(gen *vlib.G) {
 	sfCase(gen, "Elliptic complete vs Carlson", func(r *rep, e *sfErr) {
 		var ms []float64
 		for _, mc := range ellThr {
-			ms = append(ms, 1-mc*(1-1e-6), 1-mc, 1-mc*(1+1e-6))
+			ms = append(ms, 1-mc*(1-1e-6), 1-mc, 1-mc*(1+1e-6), 1-math.Nextafter(mc, 0), 1-math.Nextafter(mc, 1))
 		}
 		ms = append(ms, 0, 1e-12, 1e-6, 0.01, 0.1, 0.3, 0.5, 0.7, 0.9, 0.99, 0.999, 1-1e-6, 1-1e-9, 1-1e-12)
+		for i := 1; i < 100; i++ {
+			ms = append(ms, float64(i)/100)
+		}
 		for _, m := range uniqSorted(ms) {
 			arg := "m=" + g(m)
 			K, E, B, D := mathext.CompleteK(m), mathext.CompleteE(m), mathext.CompleteB(m), mathext.CompleteD(m)
@@ -614,9 +653,9 @@ func genMathext(gen *vlib.G) {
 		w1 := cmplx.Exp(complex(0, -2*math.Pi/3))
 		w2 := cmplx.Exp(complex(0, 2*math.Pi/3))
 		var zs []complex128
-		for _, rad := range []float64{0, 0.1, 0.5, 1, 1.5, 2, 3, 5, 8} {
-			for k := 0; k < 12; k++ {
-				th := float64(k) * math.Pi / 6
+		for _, rad := range []float64{0, 0.1, 0.25, 0.5, 1, 1.5, 2, 3, 4, 5, 6, 8, 10, 15, 25} {
+			for k := 0; k < 24; k++ {
+				th := float64(k) * math.Pi / 12
 				zs = append(zs, cmplx.Rect(rad, th))
 				if rad == 0 {
 					break
